@@ -91,7 +91,9 @@ func (n *SimNode) IsCompute() bool { return n.Roles&node.RoleComputeWorker != 0 
 // scenario has a compute runtime and, if so, extends the genesis document.
 func (s *Scenario) addRuntime(rng *rand.Rand, profile string) {
 	on := profile == "runtime"
-	if !on {
+	if profile == "vrf" { // VRF beacon support: committee elections under VRF need the compute runtime
+		on = rng.IntN(8) != 0
+	} else if !on {
 		on = rng.IntN(3) == 0
 	}
 	switch RuntimeMode {
